@@ -286,8 +286,86 @@ def gen_disciplined(rng, big=False):
             "ops": ops, "disciplined": True, "srv_unbuffered": srv_unbuffered}
 
 
+def gen_seek_window(rng):
+    """Targeted, still disciplined: seeks that land inside / just around the client's read-ahead window while a
+    small write is still buffered.  The generator tracks the caller's position with a tiny local simulation so
+    that every seek target is chosen RELATIVE to the current position (absolute and SEEK_CUR forms), never
+    negative, and tell() is only asked right after a flush."""
+    mode = rng.choice(["r+", "r+", "w+"])
+    bufsize = rng.choice([4, 8, 16, 32, 64, 200, 4096, 8192, rng.randrange(2, 300)])
+    n = rng.randrange(20, 160)
+    init = bytes(rng.choice(ALPHA) for _ in range(n))
+    content = bytearray(init if mode == "r+" else b"")
+    pos = 0
+    ops = []
+
+    def do_write(d):
+        nonlocal pos
+        if d:
+            if pos > len(content):
+                content.extend(b"\0" * (pos - len(content)))
+            content[pos:pos + len(d)] = d
+            pos += len(d)
+        ops.append(("w", d))
+
+    def do_read(k):
+        nonlocal pos
+        ops.append(("r", k))
+        pos = min(len(content), pos + k) if pos < len(content) else pos
+
+    def do_readline(k=None):
+        nonlocal pos
+        ops.append(("l", k))
+        rest = bytes(content[pos:]) if k is None else bytes(content[pos:pos + k])
+        i = rest.find(b"\n")
+        pos += len(rest) if i < 0 else i + 1
+
+    if mode == "w+":
+        do_write(bytes(rng.choice(ALPHA) for _ in range(n)))
+        ops.append(("f",))
+        ops.append(("s", 0, 0))
+        pos = 0
+    for _ in range(rng.randrange(2, 9)):
+        # 1. a read that leaves read-ahead (buffered files read at least bufsize bytes at a time)
+        if rng.random() < 0.5:
+            do_read(rng.randrange(1, 6))
+        else:
+            do_readline(rng.choice([None, rng.randrange(1, 8)]))
+        # 2. sometimes a small write that stays in the write buffer (no LF: line buffering would push it out)
+        if rng.random() < 0.75:
+            ln = rng.randrange(1, max(2, min(bufsize - 1, 6)))
+            do_write(bytes(rng.choice(b"XYZ#") for _ in range(ln)))
+        # 3. a seek chosen relative to the current position: inside the read-ahead window, just behind, or zero
+        delta = rng.choice([1, 1, 2, 3, 5, rng.randrange(1, bufsize + 3), 0, -1, -2])
+        target = max(0, pos + delta)
+        if rng.random() < 0.5:
+            ops.append(("s", target, 0))
+        else:
+            ops.append(("s", target - pos, 1))
+        pos = target
+        # 4. observe: read / readline / write / flush+tell
+        k = rng.choice("rlwft")
+        if k == "r":
+            do_read(rng.randrange(1, 9))
+        elif k == "l":
+            do_readline()
+        elif k == "w":
+            do_write(bytes(rng.choice(b"abc\n") for _ in range(rng.randrange(1, 5))))
+        elif k == "f":
+            ops.append(("f",))
+        else:
+            ops.append(("f",))
+            ops.append(("t",))
+    ops = ops[:40] + [("c",)]
+    return {"mode": mode, "bufsize": bufsize, "pipelined": rng.random() < 0.4, "init": init, "maxreq": rng.choice([None, 7, 64]),
+            "ops": ops, "disciplined": True, "targeted": "seek-window", "srv_unbuffered": rng.random() < 0.5}
+
+
 def gen_program(rng, big=False):
-    if rng.random() < 0.5:
+    x = rng.random()
+    if x < 0.2 and not big:
+        return gen_seek_window(rng)
+    if x < 0.55:
         return gen_disciplined(rng, big)
     mode = rng.choice(MODES)
     bufsize = rng.choice([-1, 0, 1, 2, 3, 7, 64, 8192, rng.randrange(2, 65537)])
